@@ -39,11 +39,19 @@ Record spec := { sp_kind : data_kind; sp_name : bytes (* an EntryName: already s
 Definition ne (p : bytes) : bool := match p with [] => false | _ => true end.
 
 (* FlattenWriter<u32::MAX>::write pushes buf.chunks(u32::MAX): nothing for an empty write, the write
-   itself when it is shorter than 2^32 bytes (longer writes are outside the model, as in Entry.data_chunks;
-   FlattenFacts.chunks_small / PipelineFacts.flat_sink_faithful relate this to Flatten.flatten_write) *)
-Definition flat_sink (ps : list bytes) : list bytes := filter ne ps.
-(* ChunkStreamWriter::write: one chunk per write, also for an empty one *)
-Definition chunk_sink (ps : list bytes) : list bytes := ps.
+   itself when it has at most u32::MAX bytes, pieces of u32::MAX bytes otherwise (Chunk.pieces, for every bound;
+   PipelineFacts.flat_sink_faithful relates this to Flatten.flatten_write, flat_sink_small to `filter ne`) *)
+Definition flat_sink_at (cmax : N) (ps : list bytes) : list bytes := flat_map (pieces cmax) ps.
+Definition flat_sink (ps : list bytes) : list bytes := flat_sink_at CMAX ps.
+(* ChunkStreamWriter::write since fix 45407aa2: an empty write is one empty chunk; any other write is cut into
+   chunks of at most u32::MAX bytes (`for piece in buf.chunks(u32::MAX as usize) { write_chunk }`), so a write of
+   at most u32::MAX bytes is one chunk as before *)
+Definition sink_write (cmax : N) (p : bytes) : list bytes := match p with [] => [[]] | _ => pieces cmax p end.
+Definition chunk_sink_at (cmax : N) (ps : list bytes) : list bytes := flat_map (sink_write cmax) ps.
+Definition chunk_sink (ps : list bytes) : list bytes := chunk_sink_at CMAX ps.
+(* the writer before 45407aa2: one chunk per write whatever its length; the chunk's 32-bit length field kept the low
+   bits of a longer payload (PipelineFacts.chunk_sink_unrepaired) *)
+Definition chunk_sink_orig (ps : list bytes) : list bytes := ps.
 
 (* sequences of reads (the same fixpoints as in CbcFacts / CtrFacts) *)
 Section Reads.
